@@ -215,7 +215,12 @@ def _parse_op(description, el_op, invocation, allow_concat=False, implicit_outpu
     op = stage1.Op([stage1.Args(exprs_in), stage1.Args(exprs_out)])
     el_subop = _to_el_expr(op)
     assert len(el_op.children[0].children) == len(el_subop.children[0].children)
-    assert len(el_op.children[1].children) == len(el_subop.children[1].children)
+    if len(el_op.children[1].children) != len(el_subop.children[1].children):
+        raise SemanticError(
+            invocation=invocation,
+            message=f"The operation expects {len(el_op.children[1].children)} output expression(s), but {len(el_subop.children[1].children)} "
+            "were determined implicitly. Please specify the output expressions explicitly.\n%EXPR%",
+        )
 
     # Check bracket usage
     def _to_ordinal_str(i):
